@@ -9,6 +9,7 @@ open Llir
 
 inductive NS where
   | ty | comdat | global | alias | ifunc | func | attrgroup | namedmd | md
+  | uselist                 -- a module-level `uselistorder` directive (defines nothing)
   deriving Repr, DecidableEq
 
 /-- the four kinds of global entities share one namespace -/
@@ -23,6 +24,7 @@ structure Ent where
   refs : List (NS × String) := []
   ldefs : List String := []
   lrefs : List String := []
+  brefs : List (String × String) := []   -- `blockaddress(@f, %l)` constants inside the entity: (function key, label)
   deriving Repr
 
 inductive Err where
@@ -80,6 +82,16 @@ def lookup (ents : List Ent) (space : NS) (key : String) : Option Nat :=
     | none => false
   idx.getLast?
 
+/-- `blockaddress(@f, %l)`: `@f` must denote a FUNCTION and `%l` one of its locally defined blocks
+    (asm/const.go irBlockAddressConst + asm/helper.go fixBlockAddressConst / findBlock) -/
+def blockOK (ents : List Ent) (b : String × String) : Bool :=
+  match lookup ents .global b.1 with
+  | some i =>
+    match ents[i]? with
+    | some f => f.ns == .func && f.ldefs.contains b.2
+    | none => false
+  | none => false
+
 /-- step 2 for one entity: every reference must resolve; undefined attribute groups are materialised (no error) -/
 def entErr (ents : List Ent) (e : Ent) : Option Err :=
   match e.refs.find? (fun r => r.1 != .attrgroup && (lookup ents r.1.space r.2).isNone) with
@@ -90,7 +102,10 @@ def entErr (ents : List Ent) (e : Ent) : Option Err :=
     | none =>
       match e.lrefs.find? (fun k => !e.ldefs.contains k) with
       | some k => some (.undefLocal k)
-      | none => none
+      | none =>
+        match e.brefs.find? (fun b => !blockOK ents b) with
+        | some b => some (.undefLocal b.2)
+        | none => none
 
 /-- the resolved module: for each entity (by position) the objects its references denote -/
 structure Resolved where
